@@ -241,9 +241,22 @@ func (fl *File) Write(b []byte) (int, error) {
 	for len(n.data) < fl.off {
 		n.data = append(n.data, 0)
 	}
+	full := false
+	if limit, limited := fl.f.NoSpaceAt[fl.path]; limited && fl.off+len(b) > limit {
+		// the disk fills up: what fits is written, the rest is refused
+		room := limit - fl.off
+		if room < 0 {
+			room = 0
+		}
+		b = b[:room]
+		full = true
+	}
 	k := copy(n.data[fl.off:], b)
 	n.data = append(n.data, b[k:]...)
 	fl.off += len(b)
+	if full {
+		return len(b), &fs.PathError{Op: "write", Path: fl.path, Err: syscall.ENOSPC}
+	}
 	return len(b), nil
 }
 
